@@ -259,6 +259,20 @@ func c16Scenario(tree int, dotu bool, maxK int, ancestors bool) Scenario {
 										}
 									}
 									qidPaths[sd.Stat.Qid.Path] = full
+									// the fid keeps designating the same object once it is open (the open
+									// follows a symbolic link, the fid does not)
+									if a == 0 && !inplace {
+										if ro := cl.Rpc(&wire.Msg{Type: wire.Topen, Tag: 5, Fid: dst, Mode: 0}); ro != nil && ro.Type == wire.Ropen {
+											res.Evals++
+											if so := statOf(dst); so == nil || so.Type != wire.Rstat {
+												fail("open-fid-unusable", fmt.Sprintf("Tstat of %q after opening it answers %v", full, so))
+											} else if p := c16CheckStat(&so.Stat, n.lstat, n.rel[len(n.rel)-1], dotu); p != "" {
+												fail("stat-mismatch-once-open/"+sigWords(p), fmt.Sprintf("Tstat of %q after opening the fid: %s", full, p))
+											} else if so.Stat.Qid.Path != sd.Stat.Qid.Path {
+												fail("qid-changes-on-open", fmt.Sprintf("%q: qid path %d before, %d after opening the fid", full, sd.Stat.Qid.Path, so.Stat.Qid.Path))
+											}
+										}
+									}
 								}
 							} else if inplace {
 								// partial or failed walk in place: the fid stays where it was
@@ -345,7 +359,7 @@ func c16Scenarios(tier string) []Scenario {
 func init() {
 	register(&Property{ID: "C16", Level: "exploration",
 		Technique: "bounded-exhaustive enumeration of walks and stats over constructed trees against the real Ufs, compared with os.Lstat",
-		Rule:      "4 constructed trees (files, directories, symlinks to file/dir/dangling, hard links, names with spaces, dots, non-ASCII and non-UTF-8 bytes, 255-byte names, a 40-level chain, modes 0000-0777, a >4 GiB sparse file); for every node and k in 0..1 (thorough 2) missing trailing elements: the walk from the root (and from every ancestor) as one Twalk (<= 16 elements) to a new fid and in place, Tstat of both fids afterwards, stat of every node in both dialects, Clnt.FStat of every path and of a missing child. non-trivial = walks/stats compared",
+		Rule:      "4 constructed trees (files, directories, symlinks to file/dir/dangling, hard links, names with spaces, dots, non-ASCII and non-UTF-8 bytes, 255-byte names, a 40-level chain, modes 0000-0777, a >4 GiB sparse file); for every node and k in 0..1 (thorough 2) missing trailing elements: the walk from the root (and from every ancestor) as one Twalk (<= 16 elements) to a new fid and in place, Tstat of both fids afterwards and again once the new fid is open, stat of every node in both dialects, Clnt.FStat of every path and of a missing child. non-trivial = walks/stats compared",
 		Assumptions: []string{"the host file system and os.Lstat are the reference; run as the sandbox user (root), permission denials are not exercised", "random trees of the quantifier are sampling and not claimed"},
 		Scenarios:   c16Scenarios, QuickS: 100, ThoroughS: 600})
 }
